@@ -341,6 +341,9 @@ type c20Obs struct {
 	leaks    []string
 }
 
+// c20VersionOverride, if set, is the VERSION frame the scripted peer answers INIT with (units run one after the other)
+var c20VersionOverride []byte
+
 func c20Once(u *vfUnit, op c20Op, target int, mut []byte, rawFrame bool) c20Obs {
 	var obs c20Obs
 	var mu sync.Mutex
@@ -367,6 +370,9 @@ func c20Once(u *vfUnit, op c20Op, target int, mut []byte, rawFrame bool) c20Obs 
 			}
 			return v.Frame()
 		},
+	}
+	if c20VersionOverride != nil {
+		peer.VersionFrame = c20VersionOverride
 	}
 	base := vfGoBaseline()
 	opts := append([]ClientOption{MaxPacketUnchecked(1000), MaxConcurrentRequestsPerFile(4)}, op.opts...)
@@ -437,6 +443,40 @@ func c20Run(u *vfUnit) {
 	if dry.panicked != nil || dry.stuck != "" || dry.follow != "" {
 		u.Violation("valid-replies:"+op.name, fmt.Sprintf("%s with all-valid replies: panic=%v stuck=%q follow=%q", op.name, dry.panicked, vfTrim(dry.stuck, 300), dry.follow), nil)
 		return
+	}
+	// the handshake is the peer's too: every extension the client consults, advertised with every kind of data
+	// (empty, other revisions, not a number, long), all other replies valid
+	hsCase := 100000
+	for _, name := range []string{"fsync@openssh.com", "posix-rename@openssh.com", "hardlink@openssh.com", "statvfs@openssh.com"} {
+		for di, data := range []string{"", "0", "2", "x", "\x00", "11", strings.Repeat("9", 1000)} {
+			hsCase++
+			exts := [][2]string{{"fsync@openssh.com", "1"}, {"posix-rename@openssh.com", "1"}, {"hardlink@openssh.com", "1"}, {"statvfs@openssh.com", "2"}}
+			for i := range exts {
+				if exts[i][0] == name {
+					exts[i][1] = data
+				}
+			}
+			if !u.Case(hsCase, fmt.Sprintf("%s:VERSION:ext-data", op.name), "%s with VERSION advertising %s=%q", op.name, name, vfTrim(data, 20)) {
+				continue
+			}
+			u.Eval(fmt.Sprintf("%s/handshake/%s/%d", op.name, name, di))
+			u.Count("handshake_data_variants", 1)
+			c20VersionOverride = vfPkt{Type: rfVersion, Version: 3, Exts: exts}.Frame()
+			obs := c20Once(u, op, -1, nil, false)
+			c20VersionOverride = nil
+			where := fmt.Sprintf("%s after a VERSION reply advertising %s with data %q", op.name, name, vfTrim(data, 20))
+			w := map[string]any{"operation": op.name, "extension": name, "data": vfTrim(data, 40)}
+			switch {
+			case obs.panicked != nil:
+				u.Violation(fmt.Sprintf("panic:%s:VERSION:ext-data", op.name), fmt.Sprintf("%s: the call panicked: %v\n%s", where, obs.panicked, vfTrim(obs.stack, 1500)), w)
+			case obs.stuck != "":
+				u.Violation(fmt.Sprintf("hang:%s:VERSION:ext-data", op.name), fmt.Sprintf("%s: the call does not return: %s", where, obs.stuck), w)
+			case obs.follow != "" && !strings.HasPrefix(obs.follow, "connect failed"):
+				u.Violation(fmt.Sprintf("aftermath:%s:VERSION:ext-data", op.name), where+": "+obs.follow, w)
+			case len(obs.leaks) > 0:
+				u.Violation(fmt.Sprintf("goroutine-leak:%s:VERSION:ext-data", op.name), fmt.Sprintf("%s: %d package goroutine(s) survive Close", where, len(obs.leaks)), w)
+			}
+		}
 	}
 	nreq := min(len(dry.valid), 8)
 	caseNo := 0
